@@ -147,6 +147,8 @@ def w_queries(idx):
         # what the queries return is a matter of child lists and names only)
         if i % 2 == 0 and len(s["st"]["kids"]) >= 2:
             w = World.build({k: v for k, v in s["st"].items() if k != "store"}, ids=lambda j: "one-id")
+            for x in w.nodes:
+                x.prefix = "ns0"             # ... and carry a prefix of their own: queries go by element NAME
             for name, detail in cmp_queries(w, s["q"]):
                 out.append((f"query:{name}:nodes-share-an-id", detail, {"kind": "query", "state": s["st"], "query": name, "ids": "all nodes constructed with one explicit id"}))
             n += 1
